@@ -268,6 +268,9 @@ def d2b_fidelity(chk: Check) -> None:
             elif isinstance(e, ast.Attribute):
                 ops.append("." + e.attr)
                 e = e.value
+            elif isinstance(e, ast.Subscript):
+                ops.append("[" + src(e.slice) + "]")
+                e = e.value
             else:
                 return list(reversed(ops)), e
 
@@ -277,7 +280,8 @@ def d2b_fidelity(chk: Check) -> None:
     if len(runs) != 1:
         raise AnalysisError("decrypt tool invocation not found")
     top: ast.AST = runs[0]
-    while isinstance(parent(top), (ast.Attribute, ast.Call)) and \
+    while isinstance(parent(top), (ast.Attribute, ast.Call,
+                                   ast.Subscript)) and \
             (getattr(parent(top), "value", None) is top or
              getattr(parent(top), "func", None) is top):
         top = parent(top)
@@ -788,6 +792,55 @@ def d10_offset_sign_applies_to_the_whole_delta(chk: Check) -> None:
                  "offset")
 
 
+def d11_parser_per_file(chk: Check) -> None:
+    """ruamel's YAML object keeps what a document told it: after a file
+    that starts with `%YAML 1.1` the same object reads the *next* file by
+    the 1.1 rules (`yes` is a boolean, `0123` is octal) and writes the
+    directive into it.  eyaml-rotate-keys loads, edits and rewrites one
+    file after another, so the parser a file is loaded and dumped with is
+    created for that file, inside the per-file loop."""
+    prog = chk.prog
+    chk.rule("C19-D11", "in eyaml-rotate-keys the YAML editor that loads "
+             "and writes a file is created inside the loop over the input "
+             "files", floor=2)
+    fi = prog.func("eyaml_rotate_keys.main")
+    loops = [l for l in walk_local(fi.node) if isinstance(l, ast.For) and
+             any(isinstance(c, ast.Call) and
+                 src(c.func).endswith("get_yaml_data")
+                 for c in walk_local(l))]
+    if len(loops) != 1:
+        raise AnalysisError("per-file loop of eyaml-rotate-keys not found")
+    loop = loops[0]
+    users = []
+    for c in walk_local(loop):
+        if isinstance(c, ast.Call) and src(c.func).endswith("get_yaml_data") \
+                and c.args and isinstance(c.args[0], ast.Name):
+            users.append((c, c.args[0].id, "load"))
+        elif isinstance(c, ast.Call) and isinstance(c.func, ast.Attribute) \
+                and c.func.attr in ("dump", "dump_all") and \
+                isinstance(c.func.value, ast.Name):
+            users.append((c, c.func.value.id, "dump"))
+    if len(users) < 2:
+        raise AnalysisError("load / dump through the editor not found")
+    for c, name, what in users:
+        made = [a for a in walk_local(loop) if isinstance(a, ast.Assign) and
+                src(a.targets[0]) == name and isinstance(a.value, ast.Call)
+                and src(a.value.func).endswith("get_yaml_editor") and
+                a.lineno < c.lineno]
+        text = "{} through `{}`".format(what, name)
+        if made:
+            chk.ok("C19-D11", fi, c, text, "editor created in the loop "
+                   "(line {})".format(made[-1].lineno))
+        else:
+            chk.fail("C19-D11", fi, c, text,
+                     "one editor serves every input file: the %YAML "
+                     "directive (or other state) of one file is applied to "
+                     "the next, whose plain values are re-typed and "
+                     "rewritten (`flag: yes` becomes `flag: true`, `0123` "
+                     "becomes 83) -- non-encrypted values must be left "
+                     "unchanged")
+
+
 def run(chk: Check) -> None:
     model = CliModel(chk.prog)
     d1_marker(chk)
@@ -802,3 +855,4 @@ def run(chk: Check) -> None:
     d3b_skip_key_is_own_anchor(chk)
     d9_whole_file_writes_truncate(chk)
     d10_offset_sign_applies_to_the_whole_delta(chk)
+    d11_parser_per_file(chk)
